@@ -13,3 +13,4 @@ register_simp_attr rs_actiondata
 register_simp_attr rs_modifiers
 register_simp_attr rs_refs
 register_simp_attr rs_merge
+register_simp_attr rs_loops
